@@ -117,6 +117,7 @@ type FnCtx struct {
 	inlined   map[string]bool
 	deriv     map[string]derivInfo
 	lockInit  map[string][][2]string
+	callRes   []Val
 	dry       int
 	noFacts   int
 	masks     map[string]string // term -> shift term s, for (2^s - 1)
